@@ -315,11 +315,17 @@ package kcache
 @*/
 
 /*@ func (*kcache.filterSubscription).distributeEvents
-  props C10
+  props C10 C02 C05
   modifies sent(s.outch) full(s.outch)
   requires (and (not (= {s} vnil)) (not (= {s.outch} vnil)) (not (= {s.log} vnil)) (not {closed(s.outch)}))
+  ghost nsent : Int := 0
+  ghost ndrop : Int := 0
+  at send(s.outch) assert [publishes-the-next-event-of-the-batch-unmodified] (= $val (select (sarr {events}) {rangeindex}))
+  at send(s.outch) set nsent := (+ nsent 1)
+  at default set ndrop := (+ ndrop 1)
   loop 1 inv [range] (and (<= 0 (+ {rangeindex} 1)) (<= (+ {rangeindex} 1) (slen {events})) (not {closed(s.outch)}))
-  at go() assert [opt:handlers-run-serially-on-the-actor-goroutine] false
+  loop 1 inv [every-event-so-far-was-published-in-order-or-dropped-on-overflow] (and (= (+ nsent ndrop) (+ {rangeindex} 1)) (>= nsent 0) (>= ndrop 0))
+  exit [every-event-was-published-in-order-or-dropped-on-overflow] (= (+ nsent ndrop) (slen {events}))
 @*/
 
 /*@ neverclosed kcache.filterSubscription.refilterch
@@ -589,6 +595,10 @@ package kcache
 /*@ func (*kcache._subscription).send
   props C05 C10 C12
   requires (and (not (= {s} vnil)) (not (= {s.inch} vnil)) (not (= {s.lc} vnil)) (not {closed(s.inch)}))
+  ghost handed : Bool := false
+  at send(s.inch) assert [hands-over-the-given-event] (= $val {ev})
+  at send(s.inch) set handed := true
+  exit [nil-iff-the-event-was-taken-by-the-subscription] (= (= result vnil) handed)
 @*/
 
 /*@ func (*kcache.publisher).distributeEvent
